@@ -387,11 +387,11 @@ NextDataDamageNoTail == \/ Commit
                         \/ \E k \in 1..MaxChunks : Pack(k)
                         \/ \E o \in Opts : Backup(o, 1)
                         \/ \E t \in Times, r \in 0..3, k \in Kinds : Damage(t, r, k)
-\* the clock advances with every run, damage to the data files of the newest generation
+\* the clock advances with every run, damage to the data files (of every generation)
 NextClassic == \/ Commit \/ BeginTail \/ AbortTail
                \/ \E k \in 1..MaxChunks : Pack(k)
                \/ \E o \in Opts : Backup(o, 1)
-               \/ \E t \in Times, r \in 0..3, k \in Kinds : DamageNewest(t, r, k)
+               \/ \E t \in Times, r \in 0..3, k \in Kinds : Damage(t, r, k)
 NextSteadyClock2 == \/ Commit \/ BeginTail \/ AbortTail
                     \/ \E k \in 1..MaxChunks : Pack(k)
                     \/ \E o \in Opts : Backup(o, 1)
